@@ -134,6 +134,26 @@ pub fn full_vars(seed: u64) -> Vec<Ent> {
         IrType::Bytes(32),
         JubjubSubgroup::generator().to_bytes().to_vec().into(),
     ));
+    // 32-byte strings that decode to points of the curve outside the prime-order subgroup: the
+    // point of order two (0, -1) and generator + (0, -1); and encodings of the identity
+    // (canonical; with the sign bit of x = 0 set)
+    {
+        use midnight_curves::{JubjubAffine, JubjubExtended};
+        let mut t2 = (-midnight_curves::Fq::ONE).to_repr().as_ref().to_vec();
+        t2.resize(32, 0);
+        let t2: [u8; 32] = t2.try_into().unwrap();
+        v.push(var("y32t", IrType::Bytes(32), t2.to_vec().into()));
+        if let Some(t) = Option::<JubjubAffine>::from(JubjubAffine::from_bytes(t2)) {
+            let g = JubjubAffine::from_bytes(JubjubSubgroup::generator().to_bytes()).unwrap();
+            let gt = JubjubAffine::from(JubjubExtended::from(g) + JubjubExtended::from(t));
+            v.push(var("y32gt", IrType::Bytes(32), gt.to_bytes().to_vec().into()));
+        }
+        let id = JubjubSubgroup::identity().to_bytes();
+        v.push(var("y32id", IrType::Bytes(32), id.to_vec().into()));
+        let mut ids = id;
+        ids[31] |= 0x80;
+        v.push(var("y32is", IrType::Bytes(32), ids.to_vec().into()));
+    }
     v.push(var("y33", IrType::Bytes(33), pat(33, 7, 1).into()));
     v.push(var("y64", IrType::Bytes(64), vec![0xffu8; 64].into()));
     v.push(var("y70", IrType::Bytes(70), pat(70, 3, 0).into()));
@@ -232,7 +252,7 @@ pub fn operand_env(tier: Tier, seed: u64, reduced: bool) -> Vec<Ent> {
         ]));
         v
     } else {
-        let mut v = pick_v(&["b1", "y1", "y32g", "y33", "nm1", "u1m", "u64m", "u97z", "pg", "sm1"]);
+        let mut v = pick_v(&["b1", "y1", "y32g", "y32t", "y32gt", "y33", "nm1", "u1m", "u64m", "u97z", "pg", "sm1"]);
         v.extend(pick_c(&["1", "Native:-0x01", "BigUint:0", "2"]));
         v
     }
